@@ -103,6 +103,8 @@ type StreamEnv struct {
 type Config struct {
 	Flows  map[string]string `json:"flows"`
 	Quotas map[string]string `json:"quotas"`
+	// PathParams: files under path_params/ (L1 only; names may contain a sub-directory)
+	PathParams map[string]string `json:"path_params,omitempty"`
 }
 
 var envCounter atomic.Uint64
